@@ -350,10 +350,10 @@ for _pid, _t in ADDED9.items():
 ADDED10 = {
  "C03": "(T16) fiHalt reaches its exit only through exit(); every backtrace of the interpreter outside bug paths goes to stderr. (T10) hex escapes are read (and reported: no length limit).",
  "C04": "(B12) cast rows of ccBValInfoTable name a run-time type (Fi...), not a bare C type.",
- "C05": "(W17) every local passed to bintFree in foam.c holds a value made by a copying or creating call.",
+ "C05": "(W17) every local passed to bintFree in foam.c holds a value made by a copying or creating call; (W18) the float writer of the text form puts a digit after a trailing point before the exponent marker.",
  "C06": "(S14) a message buffer made with bufNew has been written (or looked at) on every path to the message call that uses it; (S15) the list-implication helpers of ablogic.c are handed the caller's whole list parameter.",
  "C07": "(K20) no self-recursive function of the compiler keeps an automatic array of more than 512 elements; (K8) an exact-size memcpy fits.",
- "C08": "(D3) osDirSwap counts as a way to read the working directory (three legitimate callers frozen).",
+ "C08": "(D3) osDirSwap counts as a way to read the working directory (three legitimate callers frozen); (D9) #line texts written by emit.c name the source file.",
  "C11": "(N9) no word computed by a plain assignment is overwritten before it is read, in dword.c, bigint.c, foam_i.c (rules/deadstore.py); (N10) loops bounding a power of the text radix by BINT_RADIX use <, or <= with a constant radix that is not a power of two.",
  "C12": "(J15) gj0ArrChar emits <literal>.toCharArray(); a helper that looks the array up in a table is a violation.",
  "C13": "(U9) every store into an intStepNo field (and symeSetIntStepNo) stores the current step or the constant 0.",
